@@ -15,6 +15,7 @@ import (
 	"os"
 	"path/filepath"
 	"runtime"
+	"runtime/pprof"
 	"strconv"
 	"time"
 
@@ -55,6 +56,13 @@ func main() {
 	if len(os.Args) < 2 {
 		usage()
 	}
+	if pf := os.Getenv("VERIF_CPUPROFILE"); pf != "" {
+		f, err := os.Create(pf)
+		if err == nil {
+			_ = pprof.StartCPUProfile(f)
+			defer pprof.StopCPUProfile()
+		}
+	}
 	switch os.Args[1] {
 	case "check":
 		if len(os.Args) < 3 {
@@ -70,7 +78,9 @@ func main() {
 		if tier != "thorough" {
 			tier = "quick"
 		}
-		os.Exit(runCheck(os.Args[2], tier))
+		code := runCheck(os.Args[2], tier)
+		pprof.StopCPUProfile()
+		os.Exit(code)
 	case "replay":
 		if len(os.Args) < 3 {
 			usage()
